@@ -259,6 +259,29 @@ def preimage_real_transforms(verdict, tier, seed):
                                           f"the log-Jacobian reported by the preconditioning map's inverse() is not log|det dx/dz| of that map "
                                           f"(finite differences; max diff {np.max(np.abs(logdet[okp] - j_ref[okp])):.3g}) for transform cfg {cf}", scen)
                     n_eval += int(okp.sum())
+                # tails of the latent space (logit map, no whitening): the target keeps its exact Jacobian
+                # log|dx/dz| = sum_i log w_i - |z_i| - 2 log(1 + e^-|z_i|) however far out the kernel proposes
+                if cf == cfgs[2] and beta == 0.25:
+                    zt = np.array([[18.0, -17.0], [-19.0, 16.0], [15.5, 20.0], [-22.0, -14.5]])
+                    wv = np.array([bounds["a"][1] - bounds["a"][0], bounds["b"][1] - bounds["b"][0]])
+                    lo_v = np.array([bounds["a"][0], bounds["b"][0]])
+                    sg = 1.0 / (1.0 + np.exp(-zt))
+                    xt = lo_v + wv * sg
+                    jt = (np.log(wv) - np.abs(zt) - 2 * np.log1p(np.exp(-np.abs(zt)))).sum(-1)
+                    for cls_t, C_t in (("MiniPCNSMC", MiniPCNSMC), ("MiniPCN", MiniPCN)):
+                        smp_t = C_t(log_likelihood=ll, log_prior=lp, dims=2, prior_flow=F(), xp=xp, dtype="float64",
+                                    parameters=params, preconditioning_transform=tr)
+                        try:
+                            o_t = smp_t.log_prob(xp.asarray(zt), beta) if cls_t == "MiniPCNSMC" else smp_t.log_prob(xp.asarray(zt))
+                        except Exception as ex:
+                            verdict.violation(f"NeverRaises|log_prob-tails|{cls_t}|{ns}|{type(ex).__name__}", f"{cls_t}.log_prob in the tails raised {type(ex).__name__}: {str(ex)[:120]}", scen)
+                            continue
+                        bt_ = beta if cls_t == "MiniPCNSMC" else 1.0
+                        e_t = ((1 - bt_) * q_np(xt) if cls_t == "MiniPCNSMC" else 0.0) + bt_ * (l_np(xt) + p_np(xt)) + jt
+                        o_tn = np.asarray(smcdrv.to_np(o_t), dtype=np.float64).reshape(-1)
+                        n_eval += len(zt)
+                        if not np.allclose(o_tn, e_t, rtol=0, atol=1e-5):
+                            verdict.violation(f"JacobianIncluded|tails|{cls_t}|{ns}", f"{cls_t}.log_prob at latent points {zt.tolist()} (logit map) is {o_tn.tolist()}, tempered target + exact log-Jacobian = {e_t.tolist()}", scen)
                 classes = [("MiniPCNSMC", MiniPCNSMC), ("MiniPCN", MiniPCN)]
                 if ns == "jax" and not cf.get("flow"):
                     from aspire.samplers.smc.blackjax import BlackJAXSMC      # its own re-implementation of log_prob
